@@ -564,3 +564,6 @@ PROPERTIES["C07"]["bounds"]["quick"] += "; each template again with hand-written
 
 PROPERTIES["C10"]["runs"] += [dict(pkg="accumulation", files=PIPE_FILES, entry="Harness_P10R", args=dict(sample_every=3, max_samples=12))]
 PROPERTIES["C10"]["bounds"]["quick"] += "; P10R: 36 programs (result annotation x receiver spelled anonymous / blank / named x body x use), reported iff the annotated result site demands it"
+
+PROPERTIES["C10"]["runs"] += [dict(_P10, name="_contracts", quick=dict(params=dict(STMTS=2, COMPOUND=2, SIMPLE=5, CONTRACTS=1)), thorough=dict(params=dict(STMTS=2, COMPOUND=4, CONTRACTS=1)))]
+PROPERTIES["C10"]["bounds"]["quick"] += "; the same family over 5 straight-line forms with contract collection (real SSA, real inferContracts) switched on"
